@@ -104,7 +104,8 @@ pub enum Act {
     Marketing { by: u8, kind: u8 },
 }
 
-pub const OLD_VERSIONS: [&str; 6] = ["0.13.4", "0.12.1", "0.10.3", "0.9.1", "0.2.3", "0.13.0"];
+/// final releases and two of the pre-release tags cw-plus published (semver orders them below their release)
+pub const OLD_VERSIONS: [&str; 8] = ["0.13.4", "0.12.1", "0.10.3", "0.9.1", "0.2.3", "0.13.0", "0.10.0-soon4", "0.6.0-beta3"];
 
 #[derive(Clone, Debug, Default)]
 pub struct Props {
